@@ -342,6 +342,79 @@ fn store_hist(case: &Value) -> Value {
     json!({"steps": steps})
 }
 
+fn chunk_proofs(case: &Value) -> Value {
+    use ant_networking::verif_hooks::LocalSwarmCmd;
+    use ant_networking::Network;
+    use ant_protocol::messages::{ChunkProof, Query, QueryResponse, Response};
+    use libp2p::kad::Record;
+    let keypair = Keypair::ed25519_from_bytes(hexb(&case["self_seed"])).expect("32-byte seed");
+    let self_peer = PeerId::from(keypair.public());
+    let (target, _) = addr(&case["a"]);
+    let difficulty = case["difficulty"].as_u64().expect("difficulty") as usize;
+    let nonce: u64 = case["nonce"].as_u64().unwrap_or(42);
+    let records: Vec<(Vec<u8>, RecordType)> = case["records"]
+        .as_array()
+        .expect("records")
+        .iter()
+        .map(|e| (hexb(&e[0]), rtype(&e[1])))
+        .collect();
+    let mut all_local: std::collections::HashMap<NetworkAddress, RecordType> = std::collections::HashMap::new();
+    for (k, t) in &records {
+        let _ = all_local.insert(NetworkAddress::from_record_key(&RecordKey::new(k)), t.clone());
+    }
+    let held: std::collections::HashSet<Vec<u8>> = records.iter().map(|(k, _)| k.clone()).collect();
+    let rt = tokio::runtime::Builder::new_current_thread()
+        .enable_all()
+        .build()
+        .expect("runtime");
+    let resp = rt.block_on(async {
+        let (network_cmd_sender, _network_cmd_receiver) = tokio::sync::mpsc::channel(8);
+        let (local_cmd_sender, mut local_cmd_receiver) = tokio::sync::mpsc::channel::<LocalSwarmCmd>(64);
+        let network = Network::new(network_cmd_sender, local_cmd_sender, self_peer, keypair);
+        let _driver = tokio::spawn(async move {
+            let _keep = _network_cmd_receiver;
+            while let Some(cmd) = local_cmd_receiver.recv().await {
+                match cmd {
+                    LocalSwarmCmd::GetAllLocalRecordAddresses { sender } => {
+                        let _ = sender.send(all_local.clone());
+                    }
+                    LocalSwarmCmd::GetLocalRecord { key, sender } => {
+                        let rec = if held.contains(key.as_ref()) {
+                            Some(Record { value: key.to_vec(), key, publisher: None, expires: None })
+                        } else {
+                            None
+                        };
+                        let _ = sender.send(rec);
+                    }
+                    _ => {}
+                }
+            }
+        });
+        ant_node::verif_hooks::VerifNode::handle_query(
+            &network,
+            Query::GetChunkExistenceProof { key: target.clone(), nonce, difficulty },
+            ant_evm::RewardsAddress::default(),
+        )
+        .await
+    });
+    match resp {
+        Response::Query(QueryResponse::GetChunkExistenceProof(answers)) => {
+            let l: Vec<Value> = answers
+                .iter()
+                .map(|(a, r)| {
+                    let ok = match r {
+                        Ok(p) => ChunkProof::new(&a.as_bytes(), nonce).verify(p),
+                        Err(_) => false,
+                    };
+                    json!([variant(a), hex::encode(a.as_bytes()), r.is_ok(), ok])
+                })
+                .collect();
+            json!({"l": l, "abytes": hex::encode(target.as_bytes())})
+        }
+        other => json!({"error": format!("unexpected response {other:?}")}),
+    }
+}
+
 fn close_peers(case: &Value) -> Value {
     use ant_networking::verif_hooks::NetworkSwarmCmd;
     use ant_networking::Network;
@@ -598,6 +671,9 @@ fn run(case: &Value) -> Value {
         // handle whose swarm side answers the closest-peers query with the given list ("self" entries
         // stand for the handle's own peer id)
         "close_peers" => close_peers(case),
+        // Node::respond_x_closest_record_proof through Node::handle_query(GetChunkExistenceProof): the harness
+        // plays the swarm driver and answers the two store queries with the case's records
+        "chunk_proofs" => chunk_proofs(case),
         // SwarmDriver::get_closest_k_value_local_peers over a real routing table filled in the given order
         "closest_k" => closest_k(case),
         // admission / eviction history of a real NodeRecordStore with a small capacity, incl. restarts
